@@ -1,10 +1,12 @@
 (* The empty completed definitions `theory_translate` appends for the output predicates of the user
-   guide that do not occur in the completed theory (/repo 70e6ace, finding F17;
-   Model/External.v: empty_definition, missing_output_definitions).
+   guide that do not occur in the completed theory but occur in the task (/repo 70e6ace, finding
+   F17, refined by 18b2e85; Model/External.v: empty_definition, missing_output_definitions,
+   task_occurring_predicates).
 
      empty_definition_valid        forall V (q(V) <-> #false)  is valid in M  iff  M is empty on q
      missing_outputs_valid         the appended block is valid iff M is empty on every declared
-                                   output predicate that is not a predicate of the completed theory
+                                   output predicate that occurs in the task and is not a predicate
+                                   of the completed theory
      completion_predicates_incl    the completion introduces no predicate
      completion_predicates_defined every non-input predicate of the theory occurs in its completion
                                    (it heads a completed definition)
@@ -51,14 +53,31 @@ Proof.
   destruct (memb_spec pred_dec q b); intuition congruence.
 Qed.
 
-Theorem missing_outputs_valid FI M outs D :
-  (forall f, In f (missing_output_definitions outs D) -> cvalid FI M f) <->
-  (forall q, In q outs -> ~ In q (theory_predicates D) -> forall d, List.length d = parity q -> ~ M (psym q) d).
+(* membership in the list the code iterates over: declared outputs, not predicates of the completed
+   theory (IndexSet::difference), occurring in the task (the filter of /repo 18b2e85) *)
+Lemma in_missing_outputs (outs occ : list pred) (D : theory) q :
+  In q (filter (fun p => memb pred_dec p occ) (iset_diff pred_dec outs (theory_predicates D))) <->
+  In q outs /\ In q occ /\ ~ In q (theory_predicates D).
+Proof.
+  rewrite filter_In, in_iset_diff. destruct (memb_spec pred_dec q occ); intuition congruence.
+Qed.
+
+Theorem missing_outputs_valid FI M outs occ D :
+  (forall f, In f (missing_output_definitions outs occ D) -> cvalid FI M f) <->
+  (forall q, In q outs -> In q occ -> ~ In q (theory_predicates D) -> forall d, List.length d = parity q -> ~ M (psym q) d).
 Proof.
   unfold missing_output_definitions. split.
-  - intros H q Ho Hn. apply (proj1 (empty_definition_valid FI M q)). apply H. apply in_map. apply in_iset_diff. auto.
-  - intros H f Hf. apply in_map_iff in Hf. destruct Hf as [q [<- Hq]]. apply in_iset_diff in Hq.
+  - intros H q Ho Hc Hn. apply (proj1 (empty_definition_valid FI M q)). apply H. apply in_map. apply in_missing_outputs. auto.
+  - intros H f Hf. apply in_map_iff in Hf. destruct Hf as [q [<- Hq]]. apply in_missing_outputs in Hq.
     apply (proj2 (empty_definition_valid FI M q)). apply H; tauto.
+Qed.
+
+(* an output predicate that occurs on neither side of the task gets NO definition (/repo 18b2e85) *)
+Lemma missing_outputs_only_occurring outs occ D f :
+  In f (missing_output_definitions outs occ D) -> exists q, f = empty_definition q /\ In q outs /\ In q occ /\ ~ In q (theory_predicates D).
+Proof.
+  unfold missing_output_definitions. intros Hf. apply in_map_iff in Hf. destruct Hf as [q [<- Hq]].
+  apply in_missing_outputs in Hq. eauto.
 Qed.
 
 (* ---------- predicates of a completion ---------- *)
